@@ -44,5 +44,5 @@ Print Assumptions C12_code_exceptions.
 Example C12_code_variants_nonvacuous :
   let ops := [Define [] [] [] [] false; Define [0] [] [] [] false; Define [0] [] [] [] false; Define [1; 2] [] [] [] false; Define [1] [] [] [] false] in
   iter_all_subclasses (S (length (defs ops))) (subclasses_of (defs ops)) 0 = [1; 3; 4; 2; 3]
-  /\ variants (defs ops) (Site [0] true true false false false false 0 0) = [1; 3; 4; 2; 3; 0].
+  /\ variants (defs ops) (Site [0] true true false false false false 0 0 false) = [1; 3; 4; 2; 3; 0].
 Proof. vm_compute. split; reflexivity. Qed.
